@@ -22,7 +22,7 @@ RULE = ("case = binary DCOP + schedule + seed; non-trivial = >=3 variables, >=2 
         "observed before the last one; distinct by sha1(case)")
 ASSUMPTIONS = ["costs >= 0 for min objective", "binary constraints only, no variable costs"]
 BUDGET = {"quick": {"workers": 8, "examples": 800, "seconds": 40},
-          "thorough": {"workers": 16, "examples": 3000, "seconds": 600}}
+          "thorough": {"workers": 16, "examples": 24000, "seconds": 600}}
 
 
 @st.composite
